@@ -93,6 +93,41 @@ def explore(res, rng, n):
                 if abs(hv - (A[a][c2] + A[c2][a])) > 1e-8 * (1 + abs(A[a][c2] + A[c2][a])):
                     fail(res, 'Hessian of a quadratic form is not its symmetric matrix', {'A': A, 'point': pt, 'dx': dx},
                          [hv, A[a][c2] + A[c2][a]])
+    # ---- gradient / Hessian at every stencil size on multivariate polynomials of total degree < order
+    for i in range(max(4, n // 10)):
+        order = rng.choice([3, 5, 5, 7, 9])
+        nv = rng.choice([2, 3])
+        monos = []
+        for _ in range(rng.choice([2, 3, 5])):
+            e = [0] * nv
+            for _k in range(rng.randrange(0, order)):
+                e[rng.randrange(nv)] += 1
+            monos.append((rng.randint(-4, 4), tuple(e)))
+        def f(x, monos=monos):
+            return sum(cf * math.prod(x[k] ** e[k] for k in range(len(e))) for cf, e in monos)
+        def dmono(cf, e, k):
+            if e[k] == 0:
+                return (0, e)
+            e2 = list(e); e2[k] -= 1
+            return (cf * e[k], tuple(e2))
+        pt = [rng.choice([0.0, 1.0, -0.5, 2.0, 0.75]) for _ in range(nv)]
+        dx = rng.choice([0.5, 0.25, 1.0])
+        g = utils.gradient(f, nv, n=1, dx=dx, order=order)
+        H = utils.hessianMatrix(f, nv, dx=dx, order=order)
+        res.evaluations += 1
+        res.stat('grad_hess_order_%d' % order)
+        mag = max(1.0, sum(abs(cf) * math.prod((abs(p) + order * dx) ** e[k] for k, p in enumerate(pt)) for cf, e in monos))
+        case = {'monomials': monos, 'point': pt, 'dx': dx, 'order': order}
+        for a in range(nv):
+            want = sum(c2 * math.prod(pt[k] ** e2[k] for k in range(nv)) for c2, e2 in (dmono(cf, e, a) for cf, e in monos))
+            if abs(g[a](list(pt)) - want) > 1e-10 * mag / dx:
+                fail(res, 'gradient not exact on a polynomial of degree < order', case, [g[a](list(pt)), want])
+            for b2 in range(nv):
+                wanth = sum(c3 * math.prod(pt[k] ** e3[k] for k in range(nv))
+                            for c3, e3 in (dmono(*dmono(cf, e, a), b2) for cf, e in monos))
+                hv = H[a][b2](list(pt))
+                if abs(hv - wanth) > 1e-9 * mag / dx ** 2:
+                    fail(res, 'Hessian not exact on a polynomial of degree < order', case, {'entry': [a, b2], 'got': hv, 'want': wanth})
     # ---- Gram-Schmidt
     for i in range(max(5, n // 5)):
         d = rng.choice([2, 3, 4])
@@ -104,10 +139,22 @@ def explore(res, rng, n):
             T = np.column_stack([v] + [M[:, j] for j in range(1, d)])
             if abs(np.linalg.det(T)) >= 1.0:
                 break
+        # the clause is scale free: the same matrix in units of 1e-6 .. 1e6; alignment vectors close to (not on) a column
+        sc = rng.choice([1.0, 1.0, 1e-6, 1e-4, 1e-9, 1e6])
+        vs = rng.choice([1.0, 1.0, 1e-5, 1e3])
+        if rng.random() < 0.2:
+            jn = rng.randrange(1, d)
+            v2 = M[:, jn] + 1e-3 * np.array([float(rng.randint(-3, 3)) for _ in range(d)])
+            T2 = np.column_stack([v2] + [M[:, j] for j in range(1, d)])
+            if abs(np.linalg.det(T2)) > 1e-4:
+                v = v2
+                res.stat('gram_schmidt_near_parallel_alignment')
+        M = M * sc
+        v = v * vs
         B, J = utils.gramSchmidOrth(M.tolist(), v.tolist())
         B, J = np.array(B), np.array(J)
         res.evaluations += 1
-        res.stat('gram_schmidt')
+        res.stat('gram_schmidt' + ('' if sc == 1.0 else '_scaled'))
         case = {'A': M.tolist(), 'alignVec': v.tolist()}
         if not np.allclose(B.T @ B, np.eye(d), atol=1e-9):
             fail(res, 'Gram-Schmidt columns not orthonormal', case, (B.T @ B).tolist())
@@ -115,6 +162,19 @@ def explore(res, rng, n):
             fail(res, 'first column is not the normalised alignment vector', case, B[:, 0].tolist())
         if not np.allclose(J @ M, B, atol=1e-8):
             fail(res, 'J A != B', case, (J @ M).tolist())
+    # nearly dependent trailing columns (condition number up to 3e7): orthonormal to 1e-7, the tolerance of the library's own tests
+    for e in (1e-4, 1e-6, 1e-7):
+        M = np.array([[1, 0, 0, 0], [0, 1, e, 0], [0, 1, 0, e], [0, 1, 0, 0]], dtype=float).T
+        v = np.array([2.0, 1.0, -1.0, 0.5])
+        B, J = utils.gramSchmidOrth(M.tolist(), v.tolist())
+        B, J = np.array(B), np.array(J)
+        res.evaluations += 1
+        res.stat('gram_schmidt_ill_conditioned')
+        case = {'A': M.tolist(), 'alignVec': v.tolist()}
+        if not np.allclose(B.T @ B, np.eye(4), atol=1e-7):
+            fail(res, 'Gram-Schmidt columns not orthonormal (nearly dependent columns)', case, float(np.abs(B.T @ B - np.eye(4)).max()))
+        if not np.allclose(J @ M, B, atol=1e-7):
+            fail(res, 'J A != B', case, None)
 
 
 def run(tier, seed):
